@@ -443,7 +443,9 @@ def main(argv: list[str] | None = None) -> int:
             rp = os.path.join(rdir2, f"viol_{hashlib.sha1(sig.encode()).hexdigest()[:10]}.json")
             with open(rp, "w") as f:
                 json.dump({"property": pid, "signature": sig, "detail": detail, "case": case,
-                           "seed": seed, "tier": tier, "occurrences": v["count"]}, f, indent=1,
+                           "seed": seed, "tier": tier, "occurrences": v["count"],
+                           # the first failing case as generated (the shrunk one above can be degenerate)
+                           "first_case": v["case"], "first_detail": v["detail"]}, f, indent=1,
                           default=repr)
             print(f"FAIL {sig} (x{v['count']}): {detail}")
             print(f"VIOLATION property={pid} replay={rp}")
